@@ -44,25 +44,7 @@ def check(cx):
                 if not okw:
                     r1.violation('%s|writes-User.channels|%s' % (b, e.data['name']), 'a user\'s channel set is changed (%s) in %s'
                                  % (e.data['name'], b), loc=cx.loc(e.node))
-    want_callers = {
-        'structs::Channel::remove_user': {'remove_user_from_channel'},
-        'structs::Channel::add_user': {'process_join'},
-        'structs::Channel::new_on_user_join': {'process_join'},
-        'structs::Channel::rename_user': {'process_nick'},
-        'structs::VolatileState::remove_user_from_channel': {'process_part', 'process_kick', 'remove_user'},
-    }
-    seen = {k: set() for k in want_callers}
-    for fn, e in census:
-        if e.kind == 'call' and e.data.get('local'):
-            for k in want_callers:
-                if e.data['callee'].endswith(k):
-                    seen[k].add(base_fn(fn))
-    for k, want in want_callers.items():
-        r1.instance('%s callers: %s' % (k.split('::', 1)[1], ','.join(sorted(seen[k]))))
-        for extra in sorted(seen[k] - want):
-            r1.violation('%s|calls|%s' % (extra, k.split('::')[-1]), '%s is called from %s' % (k, extra), loc=extra)
-        for miss in sorted(want - seen[k]):
-            r1.violation('%s|no-longer-calls|%s' % (miss, k.split('::')[-1]), '%s no longer goes through %s' % (miss, k), loc=miss)
+    rule_membership_funnel(cx, r1)
 
     # ---------------------------------------------------------------- R4.2
     r2 = cx.rule('R4.2', 'both sides written together', floor=3, kind='pairing')
@@ -237,3 +219,29 @@ def check(cx):
     if not oki:
         r6.violation('process_whois|channel-source', 'WHOIS channel entries are not the user\'s own channel set with the rank from the channel '
                      'member map', loc=fi)
+
+
+def rule_membership_funnel(cx, rule):
+    """every departure / arrival goes through the one function that keeps both sides (and channel deletion) together
+       (shared: C04 R4.1, C16 R16.2)"""
+    census = cx_census(cx)
+    want_callers = {
+        'structs::Channel::remove_user': {'remove_user_from_channel'},
+        'structs::Channel::add_user': {'process_join'},
+        'structs::Channel::new_on_user_join': {'process_join'},
+        'structs::Channel::rename_user': {'process_nick'},
+        'structs::VolatileState::remove_user_from_channel': {'process_part', 'process_kick', 'remove_user'},
+    }
+    seen = {k: set() for k in want_callers}
+    for fn, e in census:
+        if e.kind == 'call' and e.data.get('local'):
+            for k in want_callers:
+                if e.data['callee'].endswith(k):
+                    seen[k].add(base_fn(fn))
+    for k, want in want_callers.items():
+        rule.instance('%s callers: %s' % (k.split('::', 1)[1], ','.join(sorted(seen[k]))))
+        for extra in sorted(seen[k] - want):
+            rule.violation('%s|calls|%s' % (extra, k.split('::')[-1]), '%s is called from %s' % (k, extra), loc=extra)
+        for miss in sorted(want - seen[k]):
+            rule.violation('%s|no-longer-calls|%s' % (miss, k.split('::')[-1]), '%s no longer goes through %s' % (miss, k), loc=miss)
+
